@@ -40,6 +40,11 @@ pub mod model {
         pub CUT_P: u8,
         pub UNCLAIMED_FROM: usize,
         pub DRAIN_MODE: bool,
+        pub DECLARED_LEN: usize,
+        pub COUNTER_PTR: *const AtomicUsize,
+        pub PULL_OK: bool,
+        pub NEXT_POS: usize,
+        pub END_POS: usize,
         pub DRAINER: usize,
         pub LEN: usize,
         pub CLAIMED: [bool; MAXN],
@@ -77,6 +82,11 @@ pub mod model {
         CUT_P: 0,
         UNCLAIMED_FROM: usize::MAX,
         DRAIN_MODE: false,
+        DECLARED_LEN: 0,
+        COUNTER_PTR: core::ptr::null(),
+        PULL_OK: false,
+        NEXT_POS: 0,
+        END_POS: 0,
         DRAINER: 0,
         LEN: 0,
         CLAIMED: [false; MAXN],
@@ -134,6 +144,10 @@ pub mod model {
             S.PROGRESS = 0;
             S.OBS_K = 0;
             S.CUT = usize::MAX;
+            S.COUNTER_PTR = core::ptr::null();
+            S.PULL_OK = false;
+            S.NEXT_POS = 0;
+            S.END_POS = 0;
             let mut i = 0;
             while i < MAXN {
                 S.CLAIMED[i] = false;
@@ -148,7 +162,8 @@ pub mod model {
                         assert!(n <= MAXN, "VERIF-MODEL: length above model bound");
                         S.LEN = n;
                     }
-                    None => assert!(false, "VERIF-MODEL: schedule model needs a known length"),
+                    // iterator-backed source of unknown length: the harness declared how many items it yields
+                    None => S.LEN = S.DECLARED_LEN,
                 }
             }
         }
@@ -236,6 +251,8 @@ pub mod model {
                         b = i;
                     }
                 }
+                S.COUNTER_PTR = this as *const AtomicUsize;
+                S.PULL_OK = false;
                 if b >= S.LEN || b >= S.CUT {
                     // nothing left that this worker owns: it sees the source exhausted - which a real counter only
                     // reports once every position is claimed or early exit was published
@@ -257,6 +274,9 @@ pub mod model {
                 // a claim starts where another one ended (or at 0)
                 S.IS_END[e] = true;
                 S.LAST_END = e;
+                S.PULL_OK = true;
+                S.NEXT_POS = b;
+                S.END_POS = e;
                 b
             } else if starved() && is_iter(this) {
                 // a worker that only runs after the source is exhausted: its position / ticket lies beyond everything
@@ -294,6 +314,11 @@ pub mod model {
     pub fn load(this: &AtomicUsize, _o: Ordering) -> usize {
         unsafe {
             if modelled() && is_iter(this) {
+                let other = !S.COUNTER_PTR.is_null() && !core::ptr::eq(this as *const AtomicUsize, S.COUNTER_PTR);
+                if other && S.PHASE != 1 {
+                    // ConIterOfIter::yielded_counter outside the spawn loop: COMPLETED once the run is over
+                    return if S.FINISHED { usize::MAX } else { 0 };
+                }
                 if S.PHASE == 1 {
                     // the spawning thread looks at the counter
                     let p: usize = match S.OBS_POLICY {
@@ -316,6 +341,10 @@ pub mod model {
                         i += 1;
                     }
                     S.PROGRESS = p;
+                    if other {
+                        // "is the source completed?" - it is once everything has been handed out
+                        return if p >= S.LEN { usize::MAX } else { 0 };
+                    }
                     p
                 } else if S.PHASE == 2 {
                     S.WORKER_LOAD = true;
@@ -369,6 +398,111 @@ pub mod model {
         }
     }
 
+    fn skip_model() {
+        unsafe {
+            if S.THREAD < 32 {
+                S.SKIPPED |= 1u32 << S.THREAD;
+            }
+            if S.CUT == usize::MAX {
+                let c: usize = S.CUT_P as usize;
+                kani::assume(c >= S.LAST_END && c <= S.LEN);
+                kani::assume(c == 0 || S.IS_END[c]);
+                let mut i = 0;
+                while i < MAXN {
+                    if i >= c && i < S.LEN {
+                        kani::assume(!S.CLAIMED[i]);
+                    }
+                    i += 1;
+                }
+                S.CUT = c;
+            }
+        }
+    }
+
+    /// skip_to_end of iterator-backed sources is a store of COMPLETED
+    pub fn store_usize(this: &AtomicUsize, val: usize, _o: Ordering) {
+        unsafe {
+            if modelled() && S.PHASE == 2 && is_iter(this) {
+                skip_model();
+            } else {
+                *this.as_ptr() = val;
+            }
+        }
+    }
+
+    fn is_iter_u8(this: &std::sync::atomic::AtomicU8) -> bool {
+        unsafe {
+            let base = orx_parallel::verif::RUN.iter;
+            !base.is_null() && kani::mem::same_allocation(this as *const std::sync::atomic::AtomicU8 as *const u8, base)
+        }
+    }
+
+    pub fn store_u8(this: &std::sync::atomic::AtomicU8, val: u8, _o: Ordering) {
+        unsafe {
+            if modelled() && S.PHASE == 2 && is_iter_u8(this) {
+                skip_model();
+            } else {
+                *this.as_ptr() = val;
+            }
+        }
+    }
+
+    /// ConIterOfIterX::is_mutating read by try_get_len: COMPLETED (2) once everything has been handed out
+    pub fn load_u8(this: &std::sync::atomic::AtomicU8, _o: Ordering) -> u8 {
+        unsafe {
+            if modelled() && is_iter_u8(this) {
+                if S.PHASE == 1 {
+                    let p: usize = match S.OBS_POLICY {
+                        1 => S.PROGRESS,
+                        2 => claimed_prefix_boundary(),
+                        _ => {
+                            assert!(S.OBS_K < MAXOBS, "VERIF-MODEL: more spawner observations than modelled");
+                            let p = S.OBS_P[S.OBS_K] as usize;
+                            S.OBS_K += 1;
+                            p
+                        }
+                    };
+                    kani::assume(p >= S.PROGRESS && p <= S.LEN);
+                    kani::assume(p == 0 || S.IS_END[p]);
+                    let mut i = 0;
+                    while i < MAXN {
+                        if i < p {
+                            kani::assume(S.CLAIMED[i]);
+                        }
+                        i += 1;
+                    }
+                    S.PROGRESS = p;
+                    return if p >= S.LEN { 2 } else { 0 };
+                }
+                if S.PHASE == 0 && S.FINISHED {
+                    return 2;
+                }
+                if S.PHASE == 2 {
+                    assert!(false, "VERIF-MODEL: unmodelled load by a worker");
+                }
+            }
+            *this.as_ptr()
+        }
+    }
+
+    /// the item the underlying iterator of a modelled iterator-backed source yields now: the next position of
+    /// the pull in progress (None past its end); None if no modelled pull is in progress (plain sequential use)
+    pub fn sched_pos() -> Option<Option<usize>> {
+        unsafe {
+            if modelled() && S.PHASE == 2 {
+                if S.PULL_OK && S.NEXT_POS < S.END_POS {
+                    let p = S.NEXT_POS;
+                    S.NEXT_POS += 1;
+                    Some(Some(p))
+                } else {
+                    Some(None)
+                }
+            } else {
+                None
+            }
+        }
+    }
+
     pub fn typed_swap<T>(a: &mut T, b: &mut T) {
         unsafe {
             let t = core::ptr::read(a);
@@ -393,6 +527,7 @@ pub mod model {
             assert!(n <= MAXN && t <= 32);
             S.ACTIVE = true;
             S.AVAILABLE = t;
+            S.DECLARED_LEN = n;
             S.OBS_POLICY = obs_policy;
             match owners {
                 Some(tab) => S.OWNER = tab,
@@ -468,6 +603,14 @@ pub mod model {
 
     pub fn cmpxchg_usize(this: &AtomicUsize, current: usize, new: usize, _s: Ordering, _f: Ordering) -> Result<usize, usize> {
         unsafe {
+            if modelled() && S.PHASE == 2 && is_iter(this) {
+                // ConIterOfIter's ticket lock on yielded_counter (IS_MUTATING = MAX-1, COMPLETED = MAX): the model hands
+                // positions out by the owner table, so the handle is free exactly when the preceding pull obtained one
+                if new == usize::MAX - 1 {
+                    return if S.PULL_OK { Ok(current) } else { Err(usize::MAX) };
+                }
+                return Ok(current); // release
+            }
             if starved() && is_iter(this) {
                 return Err(usize::MAX); // ConIterOfIter: COMPLETED
             }
@@ -485,6 +628,15 @@ pub mod model {
     pub fn cmpxchg_u8(this: &std::sync::atomic::AtomicU8, current: u8, new: u8, _s: Ordering, _f: Ordering) -> Result<u8, u8> {
         unsafe {
             let base = orx_parallel::verif::RUN.iter;
+            if modelled() && S.PHASE == 2 && !base.is_null()
+                && kani::mem::same_allocation(this as *const std::sync::atomic::AtomicU8 as *const u8, base)
+            {
+                // ConIterOfIterX's spin lock (AVAILABLE 0, IS_MUTATING 1, COMPLETED 2)
+                if current == 0 && new == 1 {
+                    return if S.PULL_OK { Ok(0) } else { Err(2) };
+                }
+                return Ok(current); // release
+            }
             if starved() && !base.is_null()
                 && kani::mem::same_allocation(this as *const std::sync::atomic::AtomicU8 as *const u8, base)
             {
